@@ -243,3 +243,74 @@ pub fn visit_cf(args: &[String]) -> Result<Value> {
     }
     Ok(json!({"violated": !failures.is_empty(), "programs_checked": checked, "budget": budget, "max_depth": depth, "failures": failures}))
 }
+
+/// `visit-deep DEPTH`: nesting depth DEPTH through blocks, loops and both arms of if/else, both traversals, on a
+/// thread with a 2 MiB stack: call-stack use must not grow with nesting depth
+pub fn visit_deep(args: &[String]) -> Result<Value> {
+    use wasm_encoder::*;
+    let depth: usize = args.get(0).map(|s| s.parse().unwrap_or(100_000)).unwrap_or(100_000);
+    let mut failures = vec![];
+    for shape in ["block", "loop", "if-then", "if-else"] {
+        let mut m = Module::new();
+        let mut types = TypeSection::new();
+        types.function([], []);
+        m.section(&types);
+        let mut funcs = FunctionSection::new();
+        funcs.function(0);
+        m.section(&funcs);
+        let mut exports = ExportSection::new();
+        exports.export("f", ExportKind::Func, 0);
+        m.section(&exports);
+        let mut code = CodeSection::new();
+        let mut f = Function::new([]);
+        for _ in 0..depth {
+            match shape {
+                "block" => { f.instruction(&Instruction::Block(BlockType::Empty)); }
+                "loop" => { f.instruction(&Instruction::Loop(BlockType::Empty)); }
+                "if-then" => { f.instruction(&Instruction::I32Const(1)); f.instruction(&Instruction::If(BlockType::Empty)); }
+                _ => { f.instruction(&Instruction::I32Const(1)); f.instruction(&Instruction::If(BlockType::Empty)); f.instruction(&Instruction::Else); }
+            }
+        }
+        for _ in 0..depth {
+            f.instruction(&Instruction::End);
+        }
+        f.instruction(&Instruction::End);
+        code.function(&f);
+        m.section(&code);
+        let wasm = m.finish();
+        // the nesting itself is built on a big stack (wasmparser's validator and walrus's parser are not under test here)
+        let shape_s = shape.to_string();
+        let parsed = std::thread::Builder::new().stack_size(1 << 30).spawn(move || {
+            let mut config = walrus::ModuleConfig::new();
+            config.generate_producers_section(false);
+            config.parse(&wasm)
+        })?.join();
+        let mut module = match parsed {
+            Ok(Ok(m)) => m,
+            Ok(Err(e)) => { failures.push(json!({"shape": shape_s, "error": format!("parse: {e:#}")})); continue; }
+            Err(_) => { failures.push(json!({"shape": shape_s, "error": "parse panicked"})); continue; }
+        };
+        // the traversals run in a child process-like guard: a small-stack thread; a stack overflow aborts the process,
+        // so each shape is run in a separate process by the caller (`visit-deep-one`)
+        let fid = module.exports.get_func("f")?;
+        let h = std::thread::Builder::new().stack_size(2 << 20).spawn(move || {
+            let func = module.funcs.get(fid).kind.unwrap_local();
+            let mut r = Rec::default();
+            dfs_in_order(&mut r, func, func.entry_block());
+            let func = module.funcs.get_mut(fid).kind.unwrap_local_mut();
+            let mut rm = RecMut::default();
+            let e = func.entry_block();
+            dfs_pre_order_mut(&mut rm, func, e);
+            (r.starts, r.ends, r.instrs, rm.instrs)
+        })?;
+        match h.join() {
+            Ok((s, e, i, im)) => {
+                if s != e || i != im {
+                    failures.push(json!({"shape": shape_s, "what": format!("starts {s} ends {e} instrs {i} mut-instrs {im}")}));
+                }
+            }
+            Err(_) => failures.push(json!({"shape": shape_s, "what": "traversal panicked"})),
+        }
+    }
+    Ok(json!({"violated": !failures.is_empty(), "depth": depth, "shapes": 4, "stack_bytes": 2 << 20, "failures": failures}))
+}
